@@ -468,3 +468,60 @@ class blocks_catalogue:
 
     def domain(tier, rng):
         yield from entry_domain(tier, rng)
+
+
+@contract("dask_array/slicing/_basic.py::slice_slices_and_integers", spec="unknown", props=["C28"])
+class unknown_sizes_refused:
+    """an operation that needs sizes that are still unknown raises instead of returning a wrongly shaped result"""
+    bounded_only = True
+    params = {"n": "const", "chunks": "const", "op": "const"}
+    scope = "boolean-mask selections of 1-D arrays of length <= 7 (all chunkings up to 3 blocks); ops: slices, ints, rechunk, reverse, take"
+
+    def real():
+        return lambda y, op: op(y)
+
+    def call(fn, n, chunks, op):
+        import numpy as np
+        import dask_array as da
+        d = np.arange(n) * 3 % 7
+        x = da.from_array(d, chunks=(chunks,))
+        y = x[x > 2]
+        want = d[d > 2]
+        ops = {
+            "full": (lambda a: a[:], lambda w: w[:]),
+            "slice": (lambda a: a[1:], lambda w: w[1:]),
+            "int": (lambda a: a[0], lambda w: w[0]),
+            "rev": (lambda a: a[::-1], lambda w: w[::-1]),
+            "rechunk2": (lambda a: a.rechunk(2), lambda w: w),
+            "rechunk-1": (lambda a: a.rechunk(-1), lambda w: w),
+            "take": (lambda a: a[[0]], lambda w: w[[0]]),
+            "plus": (lambda a: a + 1, lambda w: w + 1),
+            "sum": (lambda a: a.sum(), lambda w: w.sum()),
+        }
+        f, g = ops[op]
+        try:
+            got = np.asarray(fn(y, f).compute())
+        except ValueError as e:
+            return ("refused", str(e)[:80], None)
+        except IndexError as e:
+            return ("index-error", str(e)[:80], None)
+        try:
+            w = g(want)
+        except IndexError:
+            return ("numpy-refuses", None, got)
+        return ("computed", got, np.asarray(w))
+
+    def requires(n, chunks, op):
+        return True
+
+    def ensures(result, n, chunks, op):
+        kind, a, b = result
+        if kind == "computed":
+            return {"result-equals-numpy": _same(a, b)}
+        return {"refused-not-wrong": kind in ("refused", "index-error")}
+
+    def domain(tier, rng):
+        for n in range(1, 8):
+            for ch in cat.layouts_1d(n, "quick"):
+                for op in ("full", "slice", "int", "rev", "rechunk2", "rechunk-1", "take", "plus", "sum"):
+                    yield {"n": n, "chunks": ch, "op": op}
